@@ -41,7 +41,10 @@ Record eff := mkEff { etgt : tgt; ekd : ekind; eattr : attr }.
 Inductive retk :=
 | RSelf                                   (* returns the object the body ran on *)
 | RNew (cls : string)                     (* returns a new wrapper object (Joiner, _SetOperation) *)
-| RVia (a : attr).                        (* returns the object referenced by self.a (Joiner.on -> self.query) *)
+| RVia (a : attr)                         (* returns the object referenced by self.a *)
+| RCall (a : attr) (m : string).          (* return self.a.m(...): the result of method m called on the object referenced by
+                                             self.a (Joiner.on -> self.query._with_join(join), a @builder call) *)
+Definition is_rcall (r : retk) : bool := match r with RCall _ _ => true | _ => false end.
 
 Record meth := mkMeth { mname : string; mcopies : bool; meffs : list eff; mret : retk }.
 Record class := mkClass { cname : string; crecopy : list attr; cmeths : list meth }.
@@ -62,7 +65,8 @@ Definition eff_safe (recopy : list attr) (e : eff) : bool :=
   | TSelf, KInPlace => mem_str (eattr e) recopy
   | _, _ => false
   end.
-Definition meth_safe (c : class) (m : meth) : bool := mcopies m && forallb (eff_safe (crecopy c)) (meffs m).
+Definition meth_safe (c : class) (m : meth) : bool :=
+  mcopies m && negb (is_rcall (mret m)) && forallb (eff_safe (crecopy c)) (meffs m).
 Definition safeb (T : table) : bool := forallb (fun c => forallb (meth_safe c) (cmeths c)) T.
 
 Definition pair_safe (T : table) (p : string * string) : bool :=
@@ -247,32 +251,69 @@ Inductive step :=
 
 Definition copies_now (w : world) (recv : nat) (m : meth) : bool := mcopies m && negb (immutable_false w recv).
 
-(* recv.mn(args): [cp m] says whether the decorator copies the receiver first *)
-Definition exec_call (T : table) (cp : meth -> bool) (w : world) (recv : nat) (mn : string)
-           (args : list (string * item)) (chs : list (bool * cell)) (wrap : list (attr * cell)) : option (world * nat) :=
+(* class and table row of recv.mn *)
+Definition lookup_call (T : table) (w : world) (recv : nat) (mn : string) : option (class * meth) :=
   match nth_error (objs w) recv with
   | None => None
   | Some ob =>
       match find_class T (ocls ob) with
       | None => None
-      | Some c =>
-          match find_meth (cmeths c) mn with
+      | Some c => match find_meth (cmeths c) mn with None => None | Some m => Some (c, m) end
+      end
+  end.
+
+(* the decorator and the body: copy the receiver when [cpf], run the method's effects on the copy / the receiver *)
+Definition exec_body (cpf : bool) (c : class) (m : meth) (w : world) (recv : nat)
+           (args : list (string * item)) (chs : list (bool * cell)) : option (world * nat) :=
+  match (if cpf then copy_obj w recv (crecopy c) else Some (w, recv)) with
+  | None => None
+  | Some (w1, self) =>
+      match run_effs w1 self args (meffs m) chs with
+      | None => None
+      | Some w2 => Some (w2, self)
+      end
+  end.
+
+Definition finish (w : world) (self : nat) (r : retk) (wrap : list (attr * cell)) : option (world * nat) :=
+  match r with
+  | RSelf => Some (w, self)
+  | RVia a => match deref w self a with None => None | Some o => Some (w, o) end
+  | RNew cls => new_obj w cls wrap
+  | RCall _ _ => None
+  end.
+
+(* recv.mn(args): [cp w o m] says whether the decorator copies object o before running m on it.
+   A row returning [RCall a m2] runs its own effects (the first |effects| choices), then m2 on the object behind self.a
+   (remaining choices) and returns what m2 returns; one level of delegation. *)
+Definition exec_call (T : table) (cp : world -> nat -> meth -> bool) (w : world) (recv : nat) (mn : string)
+           (args : list (string * item)) (chs : list (bool * cell)) (wrap : list (attr * cell)) : option (world * nat) :=
+  match lookup_call T w recv mn with
+  | None => None
+  | Some (c, m) =>
+      if negb (forallb (fun a => item_ok (length (objs w)) (snd a)) args) then None else
+      match mret m with
+      | RCall a m2 =>
+          let n := length (meffs m) in
+          match exec_body (cp w recv m) c m w recv args (firstn n chs) with
           | None => None
-          | Some m =>
-              if negb (forallb (fun a => item_ok (length (objs w)) (snd a)) args) then None else
-              match (if cp m then copy_obj w recv (crecopy c) else Some (w, recv)) with
+          | Some (w2, self) =>
+              match deref w2 self a with
               | None => None
-              | Some (w1, self) =>
-                  match run_effs w1 self args (meffs m) chs with
+              | Some o =>
+                  match lookup_call T w2 o m2 with
                   | None => None
-                  | Some w2 =>
-                      match mret m with
-                      | RSelf => Some (w2, self)
-                      | RVia a => match deref w2 self a with None => None | Some o => Some (w2, o) end
-                      | RNew cls => new_obj w2 cls wrap
+                  | Some (c2, k2) =>
+                      match exec_body (cp w2 o k2) c2 k2 w2 o args (skipn n chs) with
+                      | None => None
+                      | Some (w3, s3) => finish w3 s3 (mret k2) wrap
                       end
                   end
               end
+          end
+      | r =>
+          match exec_body (cp w recv m) c m w recv args chs with
+          | None => None
+          | Some (w2, self) => finish w2 self r wrap
           end
       end
   end.
@@ -280,7 +321,7 @@ Definition exec_call (T : table) (cp : meth -> bool) (w : world) (recv : nat) (m
 Definition exec_step (T : table) (w : world) (s : step) : option (world * nat) :=
   match s with
   | SNew cls l => new_obj w cls l
-  | SCall recv mn args chs wrap => exec_call T (copies_now w recv) w recv mn args chs wrap
+  | SCall recv mn args chs wrap => exec_call T copies_now w recv mn args chs wrap
   end.
 
 (* ---- the immutable=False sentence: the same chain of calls, run in place or through copies ---- *)
@@ -292,7 +333,7 @@ Fixpoint run_chain (T : table) (cp : bool) (w : world) (o : nat) (ch : list call
   match ch with
   | [] => Some (w, o)
   | (mn, args, chs) :: r =>
-      match exec_call T (fun m => cp && mcopies m) w o mn args chs [] with
+      match exec_call T (fun _ _ m => cp && mcopies m) w o mn args chs [] with
       | None => None
       | Some (w1, o1) => run_chain T cp w1 o1 r
       end
@@ -371,20 +412,37 @@ Fixpoint fired_safe (recopy : list attr) (es : list eff) (chs : list (bool * cel
   | _, _ => true
   end.
 
+(* a body is quiet when every effect that fires is safe AND the body ran on a copy; without a copy nothing may fire *)
+Fixpoint fired_ok (cpf : bool) (recopy : list attr) (es : list eff) (chs : list (bool * cell)) : bool :=
+  match es, chs with
+  | e :: er, ch :: cr => (negb (fst ch) || (cpf && eff_safe recopy e)) && fired_ok cpf recopy er cr
+  | _, _ => true
+  end.
+
 Definition step_quiet (T : table) (w : world) (s : step) : bool :=
   match s with
   | SNew _ _ => true
   | SCall recv mn args chs wrap =>
-      match nth_error (objs w) recv with
+      match lookup_call T w recv mn with
       | None => true
-      | Some ob =>
-          match find_class T (ocls ob) with
-          | None => true
-          | Some c =>
-              match find_meth (cmeths c) mn with
+      | Some (c, m) =>
+          match mret m with
+          | RCall a m2 =>
+              let n := length (meffs m) in
+              fired_ok (copies_now w recv m) (crecopy c) (meffs m) (firstn n chs) &&
+              match exec_body (copies_now w recv m) c m w recv args (firstn n chs) with
               | None => true
-              | Some m => copies_now w recv m && fired_safe (crecopy c) (meffs m) chs
+              | Some (w2, self) =>
+                  match deref w2 self a with
+                  | None => true
+                  | Some o =>
+                      match lookup_call T w2 o m2 with
+                      | None => true
+                      | Some (c2, k2) => fired_ok (copies_now w2 o k2) (crecopy c2) (meffs k2) (skipn n chs)
+                      end
+                  end
               end
+          | _ => fired_ok (copies_now w recv m) (crecopy c) (meffs m) chs
           end
       end
   end.
